@@ -1,4 +1,5 @@
 //! Native reproducer for finding F-wcfi-1 (= DESIGN F8, zero factor; batch wcfi, property C14):
+//! STATUS: FIXED in /repo eada994 (zero factor => Err); this program prints `ok Err(..)` lines and exits 0 from that commit on.
 //! `write::cfi::factored_code_delta` computes `delta / factor` and `factored_data_offset` computes `offset / factor`
 //! without checking the factor.  `CommonInformationEntry::new(encoding, 0, 0, ra)` is accepted by the public API, so
 //! writing an FDE with an instruction at a non-zero code offset (code factor 0) or with any offset-carrying instruction
